@@ -125,6 +125,7 @@ structure Cfg where
 /-! ## parsing -/
 
 inductive PErr | reject (cause : Nat)
+  deriving DecidableEq
 
 def causeAccepted : Nat := 1
 def causeRejected : Nat := 64
